@@ -179,6 +179,93 @@ impl CommonDeriveInput {
     }
 }
 
+/// If there are bounded type parameters which are the type of some field,
+/// we need to impose the same bounds on their `SerType` and on their
+/// `DeserType`, as those are the type arguments of the serialization and
+/// deserialization types of the derived type. Bounds can come from the
+/// parameter list or from predicates of the `where` clause.
+///
+/// `field_types` contains the token strings of the types of the fields.
+fn replicate_field_param_bounds(
+    generics: &syn::Generics,
+    field_types: &[String],
+    where_clause_ser: &mut WhereClause,
+    where_clause_des: &mut WhereClause,
+) {
+    let mut bounded: Vec<(syn::Ident, Punctuated<syn::TypeParamBound, token::Plus>)> = vec![];
+    for param in generics.params.iter() {
+        if let GenericParam::Type(t) = param {
+            if !t.bounds.is_empty() {
+                bounded.push((t.ident.clone(), t.bounds.clone()));
+            }
+        }
+    }
+    if let Some(where_clause) = &generics.where_clause {
+        for predicate in where_clause.predicates.iter() {
+            if let WherePredicate::Type(p) = predicate {
+                if p.lifetimes.is_some() {
+                    continue;
+                }
+                if let syn::Type::Path(path) = &p.bounded_ty {
+                    if path.qself.is_none() {
+                        if let Some(ident) = path.path.get_ident() {
+                            bounded.push((ident.clone(), p.bounds.clone()));
+                        }
+                    }
+                }
+            }
+        }
+    }
+
+    for (ty, bounds) in bounded {
+        // We are just interested in type parameters that are types of
+        // fields (this also filters out bounded types that are not
+        // parameters).
+        let is_param = generics
+            .params
+            .iter()
+            .any(|p| matches!(p, GenericParam::Type(t) if t.ident == ty));
+        if !is_param || !field_types.iter().any(|x| ty == x) {
+            continue;
+        }
+        // Add a lifetime so we express bounds on DeserType
+        let mut lifetimes = Punctuated::new();
+        lifetimes.push(GenericParam::Lifetime(LifetimeParam {
+            attrs: vec![],
+            lifetime: syn::Lifetime::new("'epserde_desertype", proc_macro2::Span::call_site()),
+            colon_token: None,
+            bounds: Punctuated::new(),
+        }));
+        // Add the type bounds to the DeserType
+        where_clause_des
+            .predicates
+            .push(WherePredicate::Type(PredicateType {
+                lifetimes: Some(BoundLifetimes {
+                    for_token: token::For::default(),
+                    lt_token: token::Lt::default(),
+                    lifetimes,
+                    gt_token: token::Gt::default(),
+                }),
+                bounded_ty: syn::parse_quote!(
+                    <#ty as epserde::deser::DeserializeInner>::DeserType<'epserde_desertype>
+                ),
+                colon_token: token::Colon::default(),
+                bounds: bounds.clone(),
+            }));
+        // Add the type bounds to the SerType
+        where_clause_ser
+            .predicates
+            .push(WherePredicate::Type(PredicateType {
+                lifetimes: None,
+                bounded_ty: syn::parse_quote!(
+                    <#ty as epserde::ser::SerializeInner>::SerType
+                ),
+                colon_token: token::Colon::default(),
+                bounds,
+            }));
+    }
+}
+
 /// Return whether the struct has attributes `repr(C)`, `zero_copy`, and `deep_copy`.
 ///
 /// Performs coherence checks (e.g., to be `zero_copy` the struct must be `repr(C)`).
@@ -372,57 +459,15 @@ pub fn epserde_derive(input: TokenStream) -> TokenStream {
             // If there are bounded type parameters which are fields of the
             // struct, we need to impose the same bounds on the SerType and on
             // the DeserType.
-            derive_input.generics.params.iter().for_each(|param| {
-                if let GenericParam::Type(t) = param {
-                    let ty = &t.ident;
-
-                    // We are just interested in types with bounds that are
-                    // types of fields of the struct.
-                    //
-                    // Note that types_with_generics contains also field types
-                    // *containing* a type parameter, but that just slows down
-                    // the search.
-                    if ! t.bounds.is_empty() &&
-                        types_with_generics.iter().any(|x| *ty == x.to_token_stream().to_string()) {
-
-                        // Add a lifetime so we express bounds on DeserType
-                        let mut lifetimes = Punctuated::new();
-                        lifetimes.push(GenericParam::Lifetime(LifetimeParam {
-                            attrs: vec![],
-                            lifetime: syn::Lifetime::new("'epserde_desertype", proc_macro2::Span::call_site()),
-                            colon_token: None,
-                            bounds: Punctuated::new(),
-                        }));
-                        // Add the type bounds to the DeserType
-                        where_clause_des
-                            .predicates
-                            .push(WherePredicate::Type(PredicateType {
-                                lifetimes: Some(BoundLifetimes {
-                                    for_token: token::For::default(),
-                                    lt_token: token::Lt::default(),
-                                    lifetimes,
-                                    gt_token: token::Gt::default(),
-                                }),
-                                bounded_ty: syn::parse_quote!(
-                                    <#ty as epserde::deser::DeserializeInner>::DeserType<'epserde_desertype>
-                                ),
-                                colon_token: token::Colon::default(),
-                                bounds: t.bounds.clone(),
-                        }));
-                        // Add the type bounds to the SerType
-                        where_clause_ser
-                            .predicates
-                            .push(WherePredicate::Type(PredicateType {
-                                lifetimes: None,
-                                bounded_ty: syn::parse_quote!(
-                                    <#ty as epserde::ser::SerializeInner>::SerType
-                                ),
-                                colon_token: token::Colon::default(),
-                                bounds: t.bounds.clone(),
-                        }));
-                    }
-                }
-            });
+            replicate_field_param_bounds(
+                &derive_input.generics,
+                &types_with_generics
+                    .iter()
+                    .map(|x| x.to_token_stream().to_string())
+                    .collect::<Vec<_>>(),
+                &mut where_clause_ser,
+                &mut where_clause_des,
+            );
 
             if is_zero_copy {
                 quote! {
